@@ -412,7 +412,9 @@ def gen_scn(g, scn, **kw):
             W = [g.imat(ds, D) for _ in range(R)]
             if all(fdet(fmm(w, [list(c) for c in zip(*w)])) != 0 for w in W):
                 break
-        return dict(scn=scn, p=gen_pdfv(g, R, D, history=True), ds=ds, W=W, b=(g.mat(R, ds) if g.randint(0, 2) else None), xs=g.mat(3, ds))
+        # the receiver is a full or (every third case) a diagonal density object: the image W Sigma W' is a full matrix either way
+        pdiag = kw["diag"] if "diag" in kw else (g.randint(0, 2) == 0)
+        return dict(scn=scn, p=gen_pdfv(g, R, D, diag=pdiag, history=True), ds=ds, W=W, b=(g.mat(R, ds) if g.randint(0, 2) else None), xs=g.mat(3, ds))
     if scn == "condition_on":
         idx = kw.get("idx")
         if idx is None:
